@@ -168,32 +168,67 @@ def family(ctx):
     return out
 
 
+INSPECTOR_POINTS = {
+    'raw': [], 'qcow2': [512], 'qed': [512], 'vhd': [512], 'vdi': [512],
+    'gpt': [512], 'luks': [6, 108, 592], 'iso': [32768, 34816],
+    'vhdx': [32, 196608, 196624, 262144], 'vmdk': [4, 64, 512, 1536]}
+
+
+def prioritized(L, maxn, *groups):
+    """First maxn distinct positions in (0, L), taking the groups in priority
+    order (within a group: as listed)."""
+    out = []
+    seen = set()
+    for g in groups:
+        for x in g:
+            if 0 < x < L and x not in seen:
+                seen.add(x)
+                out.append(x)
+                if len(out) >= maxn:
+                    return sorted(out)
+    return sorted(out)
+
+
+def spread(xs, n):
+    """n elements of xs, evenly spread (keeps first and last)."""
+    xs = sorted(set(xs))
+    if len(xs) <= n or n <= 0:
+        return xs
+    if n == 1:
+        return [xs[len(xs) // 2]]
+    return [xs[round(i * (len(xs) - 1) / (n - 1))] for i in range(n)]
+
+
 def thin(cuts, keep, maxn):
-    cuts = sorted(set(cuts))
-    if len(cuts) <= maxn:
-        return cuts
-    keep = set(keep) & set(cuts)
-    rest = [c for c in cuts if c not in keep]
-    room = max(0, maxn - len(keep))
-    if room and rest:
-        step = len(rest) / float(room)
-        rest = [rest[int(i * step)] for i in range(room)]
-    else:
-        rest = []
-    return sorted(keep | set(rest))
+    L = max(list(cuts) + [0]) + 1
+    return prioritized(L, maxn, sorted(set(keep) & set(cuts)),
+                       spread([c for c in cuts if c not in keep], maxn))
 
 
 def cuts_for(S, system, im, seed, maxn):
+    """Cut candidates, most relevant first: the stream's own structure
+    boundaries, the decision points of the inspector(s) under exploration,
+    +-1 of both, region boundaries the implementation creates in two pilot
+    runs, then generic positions."""
     L = len(im.data)
+    bounds = [b for b in im.bounds if 0 < b < L]
     if system.kind == 'wrapper':
-        bb = [b for b in im.bounds if 0 < b < L]
-        return thin(WRAP_BASE | set(bb), WRAP_BASE, maxn)
-    c = S.cut_candidates(L, list(im.bounds) + GENERIC_POINTS, seed=seed)
-    c = sorted(set(c) | set(S.pilot_bounds(system, im.data, c)))
-    keep = set()
-    for b in GENERIC_POINTS:
-        keep.update((b - 1, b, b + 1))
-    return thin(c, keep, maxn)
+        own = sorted(WRAP_BASE)
+        mine = [4, 64, 512, 592]
+    else:
+        mine = INSPECTOR_POINTS.get(system.name, [])
+        own = []
+    budget_b = max(4, maxn // 2)
+    g1 = spread(bounds, budget_b)
+    g2 = list(mine)
+    g3 = [x + d for x in g1[:max(2, maxn // 6)] + mine for d in (-1, 1)]
+    g4 = own
+    pilot = S.pilot_bounds(system, im.data, sorted(set(g1 + g2))) if system.kind != 'wrapper' else []
+    g5 = spread(pilot, max(2, maxn // 6))
+    g6 = [x + d for x in g1 for d in (-1, 1)]
+    generic = S.cut_candidates(L, GENERIC_POINTS, seed=seed)
+    g7 = spread(generic, maxn)
+    return prioritized(L, maxn, g1, g2, g3, g4, g5, g6, g7)
 
 
 def _explore_one(job):
